@@ -72,6 +72,25 @@ def run(ctx):
                 c.ob("R2", ok, f, "drain-only-when-live", "the queue is drained only while live" if ok else
                      f"{f.short} drains the queue in status {sorted(pre & TERMINAL)}", call)
     c.expect("R2", "enqueue sites in send/send_events", n, 4, roles(ctx, "Interpreter").send, "send()/send_events() of one engine no longer enqueue the event: accepted events are lost")
+    # ---- R10 the consumer processes an event only while the interpreter is live ----------------------------------------
+    # (an event queued behind the one that completed the machine - send_events([FINISH, PING]) - must not run user code: each
+    #  iteration of the drain loop re-tests the status before it processes what it dequeued)
+    from sa.util import canon_atom as _ca10
+    for v in VIEWS:
+        r = roles(ctx, v)
+        dr_ = r.drain
+        procs = [s_ for s_ in res.callsites(dr_, v) if any(t.qualname in (r.process_event.qualname,) or t.name == "_process_event_and_transient_transitions" for t in s_.targets)
+                 and enclosing_loops(dr_, s_.call)]
+        if not c.expect("R10", f"processing call in the drain loop of {dr_.short}", len(procs), 1, dr_, f"{dr_.short} no longer processes the events it dequeues"):
+            continue
+        for s_ in procs:
+            at = [_ca10(a, pol) for a, pol in guards_at(dr_, s_.call) if not isinstance(a, ast.BoolOp)]
+            live = any(t[0] == "==" and {t[1], t[2]} == {"'running'", "self.status"} and t[3] is True for t in at) or \
+                any(t[0] == "in" and t[1] == "self.status" and "'done'" in t[2] and t[3] is False for t in at)
+            c.ob("R10", live, dr_, f"{v}:processes-only-while-running", "each dequeued event is processed only while status is 'running'" if live else
+                 f"'{stmt_text(s_.call, 60)}' in the drain loop of {dr_.short} is not under a per-iteration test of 'self.status == \"running\"' (guards: {at[-3:]}): an event "
+                 f"queued behind the one that completes, fails or stops the machine (send_events([FINISH, PING])) is still processed - user actions run on a "
+                 f"machine that already reports done, and the two engines disagree", s_.call)
     # ---- R3 stop()'s early return covers only uninitialized/stopped ------------------
     for v in VIEWS:
         st = roles(ctx, v).stop
